@@ -38,6 +38,7 @@ type vhandle struct {
 type vfs struct {
 	files      map[string]*vfile
 	crashLeft  int
+	ioFaultsLeft int // write failures still to be injected (vp.IOFaults)
 	crashed    bool
 	crashes    int
 	tmpSeq     int
@@ -198,6 +199,12 @@ func (m *Machine) vfsWrite(h *vhandle, b []Value) (int, Value) {
 	}
 	if len(b) == 0 {
 		return 0, Iface{}
+	}
+	if v.ioFaultsLeft > 0 && m.decide("ioerr", 2, nil) == 1 {
+		// the write fails (disk full, quota, I/O error): nothing reaches the file, the caller gets an error
+		v.ioFaultsLeft--
+		v.opLog = append(v.opLog, "I/O ERROR on write "+h.name)
+		return 0, m.pathError("write", h.name, "ErrInvalid")
 	}
 	if m.crashPoint(fmt.Sprintf("write %s (%d bytes)", h.name, len(b))) {
 		// a prefix of this write reaches the file
@@ -553,6 +560,10 @@ func init() {
 	// vp crash API
 	reg(vpPath+"CrashPoints", func(m *Machine, fr *frame, a []Value) Value {
 		m.fs().crashLeft = int(m.concInt(fr, a[0], "CrashPoints"))
+		return nil
+	})
+	reg(vpPath+"IOFaults", func(m *Machine, fr *frame, a []Value) Value {
+		m.fs().ioFaultsLeft = int(m.concInt(fr, a[0], "IOFaults"))
 		return nil
 	})
 	reg(vpPath+"Crashed", func(m *Machine, fr *frame, a []Value) Value { return m.fs().crashed })
